@@ -384,8 +384,11 @@ func (m *Manager) ApplyBatch(entries []*wal.Entry) error {
 		}
 
 		// Apply each entry to the MemTable
-		for i, entry := range entries {
-			seqNum := startSeqNum + uint64(i)
+		for _, entry := range entries {
+			// The WAL stamps the whole batch with one sequence number and
+			// advances its counter by one; the memtable must use that number
+			// or the following writes are stamped lower than this batch
+			seqNum := startSeqNum
 
 			switch entry.Type {
 			case wal.OpTypePut:
